@@ -139,6 +139,7 @@ class Ctx:
     self.notes = []
     self.known = [e for e in load_known(prop) if e.get('status') == 'known']
     self.enum_evals = 0
+    self.shrink_default = None
     self.enum_distinct = 0
     self.enum_nontrivial = 0
 
@@ -226,7 +227,7 @@ class Ctx:
     from hypothesis import HealthCheck, Phase, given, settings
 
     if shrink_budget is None:
-      shrink_budget = 40 if self.tier == 'quick' else 300
+      shrink_budget = self.shrink_default.get(self.tier, 40) if self.shrink_default else (40 if self.tier == 'quick' else 300)
     fail_cache = {}
     order = []
     state = {'after_fail': 0}
@@ -249,7 +250,10 @@ class Ctx:
       if fail_cache:
         state['after_fail'] += 1
         if state['after_fail'] > shrink_budget:
-          return
+          # budget used up: answer "still fails" without evaluating, so that Hypothesis' shrinker runs out of
+          # moves in seconds (answering "passes" makes it grind through every pass for minutes). The reported
+          # case is the last one that was really evaluated (order[-1]), never one of these.
+          raise fail_cache[order[-1]]
       elif self.out_of_time():
         self.counters['budget_skipped'] += 1
         return
@@ -359,6 +363,7 @@ def _run_task(prop, task, tier, deadline):
   t0 = time.time()
   mod = importlib.import_module(f'vf.checks.{prop.lower()}')
   ctx = Ctx(prop, task, tier, deadline)
+  ctx.shrink_default = getattr(mod, 'SHRINK', None)
   try:
     if 'x64' in task or hasattr(mod, 'X64'):
       import jax
